@@ -32,7 +32,8 @@ fn dump_one(name: &str, table: &PeriodicTable, out: &mut Vec<Value>) {
             })
             .filter(|v| !v[1].is_null())
             .collect();
-        let get_ok = table.get(key).map(|x| x.symbol == e.symbol).unwrap_or(false);
+        // (`get` and `Index<&str>` are two ways to the same element)
+        let get_ok = table.get(key).map(|x| x.symbol == e.symbol && std::ptr::eq(x, &table[key.as_str()])).unwrap_or(false);
         out.push(json!({
             "table": name,
             "key": key,
